@@ -126,8 +126,9 @@ def hmatrix(ego):
     return HomogeneousMatrix(t, q, src=FrameID.BASE_LINK, dst=FrameID.MAP)
 
 
-def frame_gt(gt_descs, frame="base_link", ego=None, t=T0, name="0"):
-    """FrameGroundTruth as the loader would build it (objects in `frame`, base_link->map transform attached)."""
+def frame_gt(gt_descs, frame="base_link", ego=None, t=T0, name="0", with_tf=True):
+    """FrameGroundTruth as the loader would build it (objects in `frame`, base_link->map transform attached).
+    with_tf=False: a hand-built ego-frame ground truth without any transform (`transforms=None` is the documented default)."""
     from perception_eval.common.dataset import FrameGroundTruth
 
     ego = ego if ego is not None else [0.0, 0.0, 0.0]
@@ -135,7 +136,7 @@ def frame_gt(gt_descs, frame="base_link", ego=None, t=T0, name="0"):
         unix_time=t,
         frame_name=name,
         objects=objs3d(gt_descs, frame, ego, t),
-        transforms=[hmatrix(ego)],
+        transforms=[hmatrix(ego)] if with_tf else None,
     )
 
 
